@@ -247,5 +247,50 @@ theorem write_nofault (s : StaticPool) (off n v : Nat) (m : Mem) (h : s.Inv) (hb
     (s.write off n v m).2 = m := by
   simp [write, SPoolCore.write, h.2.2.1, hb]
 
+/-! ### The region content is irrelevant to malloc / free / reset
+
+The correspondence runs pools of several GiB over reserved, never touched address space (`giant=1`);
+there the driver keeps an empty byte list.  These lemmas justify it: replacing the byte list commutes
+with every operation that a giant history uses, and `Inv` with a byte list of the right length follows
+from the byte-free part of the invariant. -/
+
+/-- the same pool over a different region content -/
+def withBytes (s : StaticPool) (b : Buf Nat) : StaticPool := { s with core := { s.core with bytes := b } }
+
+theorem malloc_withBytes (s : StaticPool) (b : Buf Nat) (n : Nat) :
+    (s.withBytes b).malloc n = ((s.malloc n).1, (s.malloc n).2.withBytes b) := by
+  unfold malloc SPoolCore.malloc withBytes
+  by_cases h : n > s.core.size - s.core.free <;> simp [h]
+
+theorem release_withBytes (s : StaticPool) (b : Buf Nat) (p : Option Nat) :
+    (s.withBytes b).release p = (s.release p).withBytes b := by
+  unfold release SPoolCore.release withBytes
+  by_cases h : p = some s.core.high <;> simp [h]
+
+theorem reset_withBytes (s : StaticPool) (b : Buf Nat) : (s.withBytes b).reset = s.reset.withBytes b := rfl
+
+theorem new_withBytes (size : Nat) (b b' : Buf Nat) : (new size b).withBytes b' = new size b' := rfl
+
+/-- `Inv` without its clause about the byte list -/
+def InvNoBytes (s : StaticPool) : Prop :=
+  s.core.free ≤ s.core.size ∧ s.core.high ≤ s.core.free ∧
+  s.core.free = Spec.blocksLen s.blocks ∧ layoutB s.blocks = true ∧
+  (s.undo = false → s.core.free = s.core.high) ∧
+  (s.undo = true → match s.blocks with
+                   | b :: _ => b.1 = s.core.high ∧ b.1 + b.2 = s.core.free
+                   | [] => False)
+
+instance (s : StaticPool) : Decidable s.InvNoBytes := by
+  unfold InvNoBytes
+  cases s.blocks <;> infer_instance
+
+theorem inv_withBytes (s : StaticPool) (b : Buf Nat) (h : s.InvNoBytes) (hb : b.length = s.core.size) :
+    (s.withBytes b).Inv := ⟨h.1, h.2.1, hb, h.2.2.1, h.2.2.2.1, h.2.2.2.2.1, h.2.2.2.2.2⟩
+
+theorem invNoBytes_of_inv (s : StaticPool) (h : s.Inv) : s.InvNoBytes :=
+  ⟨h.1, h.2.1, h.2.2.2.1, h.2.2.2.2.1, h.2.2.2.2.2.1, h.2.2.2.2.2.2⟩
+
+theorem invNoBytes_withBytes (s : StaticPool) (b : Buf Nat) : (s.withBytes b).InvNoBytes ↔ s.InvNoBytes := Iff.rfl
+
 end StaticPool
 end CC
